@@ -37,6 +37,7 @@ struct oghost
     size_t pos_g, pos_r;      /* position of the FIRST such write */
     int r_in; size_t r_slot;  /* an element holding R currently sits on the work stack, at this slot */
     size_t r_pops;            /* number of pops that returned R (saturating) */
+    size_t p_r;               /* number of pushes of R (saturating) */
 } OG;
 #define SAT_INC(x) ((x) = (x) < 2 ? (x) + 1 : 2)
 /* hook of every assignment `order(p) = v` */
@@ -46,7 +47,7 @@ struct oghost
         } while (0)
 /* std::stack<size_type> as array + length.  The real container grows: the capacity is a model artefact (stated instance at the push) */
 #define STK_PUSH(v) do { size_t pv_ = (v); FSL_PRE(*tmp_n < SCAP); /* model capacity */ \
-        if (pv_ == GRCV) { OG.r_in = 1; OG.r_slot = *tmp_n; } \
+        if (pv_ == GRCV) { OG.r_in = 1; OG.r_slot = *tmp_n; SAT_INC(OG.p_r); } \
         tmp_[*tmp_n] = pv_; *tmp_n = *tmp_n + 1; } while (0)
 #define REC0(x) m_receivers_[(x) * REC_W]
 #define DCNT(x) m_donors_count_[(x)]
@@ -81,7 +82,7 @@ ROWS = "struct rrow { size_t c[REC_W]; }; struct drow { size_t c[DON_W]; };\n"
 
 # ------------------------------------------------------------------------------------------------ invariant of the depth-first sweep
 INV = dict(
-    CAP="(*tmp_n <= SCAP && nstack <= gsize && OG.w_g <= 2 && OG.w_r <= 2)",
+    CAP="(*tmp_n <= SCAP && nstack <= gsize && OG.w_g <= 2 && OG.w_r <= 2 && OG.p_r <= 2)",
     # (i) the written prefix of the order holds nodes; bookkeeping of the first positions
     NODES="(QP < nstack ==> m_dfs_indices_[QP] < gsize)",
     POSG="(OG.w_g >= 1 ==> (OG.pos_g < nstack && m_dfs_indices_[OG.pos_g] == G))",
@@ -93,6 +94,12 @@ INV = dict(
     RTRACK="(OG.r_in ==> (OG.r_slot < *tmp_n && tmp_[OG.r_slot] == GRCV))",
     # (iv) once the receiver is written, G is written or the receiver is still waiting on the stack
     DONORS="((OG.w_r >= 1 && GRCV != G) ==> (OG.w_g >= 1 || OG.r_in))",
+    # (v) no-duplicate lemma: while R has been pushed at most once, its one stack element is the tracked one, it is popped at most
+    # once, and G (which only the scan of R's donor row writes) is written at most as often as R was popped
+    PAIR="(OG.p_r == OG.w_r && OG.r_pops <= 2)",
+    UNIQ="((QS < *tmp_n && tmp_[QS] == GRCV && OG.p_r <= 1) ==> (OG.r_in && OG.r_slot == QS))",
+    POPS="(OG.p_r <= 1 ==> OG.r_pops + (OG.r_in ? 1 : 0) == OG.p_r)",
+    NODUP="((GRCV != G && OG.p_r <= 1) ==> OG.w_g <= OG.r_pops)",
 )
 
 
@@ -112,6 +119,7 @@ STACK_RULES = [
     # pop: IH instance of the stack-element invariant at the popped slot (DESIGN 3.9) + donor-count well-formedness of the node read
     V(r"size_type (\w+) = tmp\.top\(\);\s*tmp\.pop\(\);",
       r"FSL_PRE(tmp_[*tmp_n - 1] < gsize && (tmp_[*tmp_n - 1] == GRCV ==> OG.w_r >= 1)); /* IH: SELEM at the popped slot */ "
+      r"FSL_PRE((tmp_[*tmp_n - 1] == GRCV && OG.p_r <= 1) ==> (OG.r_in && OG.r_slot == *tmp_n - 1)); /* IH: UNIQ at the popped slot */ "
       r"size_t \1 = tmp_[*tmp_n - 1]; *tmp_n = *tmp_n - 1; "
       r"FSL_GHOST(if (\1 == GRCV) SAT_INC(OG.r_pops); if (OG.r_in && OG.r_slot == *tmp_n) OG.r_in = 0;) "
       r"FSL_PRE(m_donors_count_[\1] <= DON_W); /* donor table well-formed (C06): row length <= width, instance at the row read */"),
@@ -119,7 +127,8 @@ STACK_RULES = [
 ]
 DONOR_READ = V(r"const auto (\w+) = m_donors\((\w+), (\w+)\);",
                r"const size_t \1 = m_donors(\2, \3); "
-               r"FSL_PRE(\1 < gsize && REC0(\1) == \2); /* donor table sound (C06 donors_sound): entries are nodes whose receiver is the row's node; instance at the entry read */")
+               r"FSL_PRE(\1 < gsize && REC0(\1) == \2); /* donor table sound (C06 donors_sound): entries are nodes whose receiver is the row's node; instance at the entry read */ "
+               r"FSL_PRE((\2 == GRCV && \1 == G) ==> \3 == GK); /* donor rows hold distinct nodes (C06, spec/router.py DISTINCT): instance at the entry read */")
 
 BU_ANCHOR = r"void flow_graph_impl<G, S, flow_graph_fixed_array_tag>::compute_dfs_indices_bottomup\(\)"
 
@@ -134,15 +143,19 @@ __CPROVER_requires(*tmp_n != 0)   /* the loop guard */
 __CPROVER_assigns(OG, *nstack_p, *tmp_n, __CPROVER_object_whole(m_dfs_indices_), __CPROVER_object_whole(tmp_))
 """ + inv("__CPROVER_ensures") + r"""
 /* the record only grows */
-__CPROVER_ensures(*tmp_n + 1 >= __CPROVER_old(*tmp_n) && nstack >= __CPROVER_old(nstack) && OG.w_g >= __CPROVER_old(OG.w_g) && OG.w_r >= __CPROVER_old(OG.w_r))
+__CPROVER_ensures(*tmp_n + 1 >= __CPROVER_old(*tmp_n) && nstack >= __CPROVER_old(nstack) && OG.w_g >= __CPROVER_old(OG.w_g) && OG.w_r >= __CPROVER_old(OG.w_r)
+    && (GRCV == G ==> OG.w_g == __CPROVER_old(OG.w_g)))
 """,
     loops={0: r"""
 __CPROVER_assigns(k, OG, *nstack_p, *tmp_n, __CPROVER_object_whole(m_dfs_indices_), __CPROVER_object_whole(tmp_))
 __CPROVER_loop_invariant(k <= m_donors_count_[istack] && istack < gsize && m_donors_count_[istack] <= DON_W && (istack == GRCV ==> OG.w_r >= 1))
 __CPROVER_loop_invariant(*tmp_n >= __CPROVER_loop_entry(*tmp_n) && nstack >= __CPROVER_loop_entry(nstack) && OG.w_g >= __CPROVER_loop_entry(OG.w_g) && OG.w_r >= __CPROVER_loop_entry(OG.w_r))
-""" + inv("__CPROVER_loop_invariant", skip=("DONORS",)) + r"""
+""" + inv("__CPROVER_loop_invariant", skip=("DONORS", "NODUP")) + r"""
 /* (iv) while the receiver's row is being scanned: G is written once the scan has passed its slot */
 __CPROVER_loop_invariant((OG.w_r >= 1 && GRCV != G) ==> (OG.w_g >= 1 || OG.r_in || (istack == GRCV && k <= GK)))
+/* (v) ... and not before: the write this pop of R owes to G is still outstanding while k <= GK */
+__CPROVER_loop_invariant((GRCV != G && OG.p_r <= 1) ==> OG.w_g + ((istack == GRCV && k <= GK) ? 1 : 0) <= OG.r_pops)
+__CPROVER_loop_invariant(GRCV == G ==> OG.w_g == __CPROVER_loop_entry(OG.w_g))
 __CPROVER_decreases(m_donors_count_[istack] - k)
 """},
 )
@@ -169,8 +182,8 @@ _BU = [Group(
            "donor G is written")]
 
 
-OG_ZERO = "(OG.w_g == 0 && OG.w_r == 0 && OG.r_in == 0 && OG.r_pops == 0)"
-ROOTS = "((%s && GRCV == G) ==> OG.w_g >= 1)"
+OG_ZERO = "(OG.w_g == 0 && OG.w_r == 0 && OG.r_in == 0 && OG.r_pops == 0 && OG.p_r == 0)"
+ROOTS = "(GRCV == G ==> OG.w_g == ((%s) ? 1 : 0))"
 CHAIN = "((OG.w_r >= 1 && GRCV != G) ==> OG.w_g >= 1)"
 
 dfs_bu = Unit(
@@ -188,6 +201,8 @@ __CPROVER_assigns(OG, *nstack_p, *tmp_n, __CPROVER_object_whole(m_dfs_indices_),
 """ % dict(ZERO=OG_ZERO) + inv("__CPROVER_ensures") + r"""
 /* (iv) the work stack is empty at the end; own receivers are in the order; if the receiver of G is in the order, so is G */
 __CPROVER_ensures(*tmp_n == 0 && %(ROOTS)s && %(CHAIN)s)
+/* (v) an own-receiver node is in the order exactly once; a node is in the order at most once if its receiver is */
+__CPROVER_ensures((GRCV != G && OG.w_r <= 1) ==> OG.w_g <= 1)
 """ % dict(ROOTS=ROOTS % "1", CHAIN=CHAIN),
     loops={
         0: r"""
@@ -300,6 +315,11 @@ BFS_VOCAB = [
     V(r"\bm_grid\.size\(\)", "gsize"),
 ]
 
+GROW = ("nstack >= %(old)s(nstack) && BG.w_g >= %(old)s(BG.w_g) && BG.w_r >= %(old)s(BG.w_r) "
+        # the record of G's first write is set once: at that write, with the level boundary current then
+        "&& (%(old)s(BG.w_g) >= 1 ==> (BG.pos_g == %(old)s(BG.pos_g) && BG.bound_g == %(old)s(BG.bound_g) && BG.lvl_g == %(old)s(BG.lvl_g))) "
+        "&& ((%(old)s(BG.w_g) == 0 && BG.w_g >= 1) ==> BG.bound_g == %(lev)s)")
+
 bfs_try_donor = Unit(
     name="bfs_try_donor", file=IMPL_H, anchor=BFS_ANCHOR,
     inner=r"for \(size_type k = 0; k < m_donors_count\(node_idx\); \+\+k\)\s*\{",
@@ -319,10 +339,9 @@ bfs_try_donor = Unit(
 __CPROVER_requires(node_idx < gsize && m_donors_count_[node_idx] <= DON_W && k < m_donors_count_[node_idx])
 __CPROVER_assigns(BG, *nstack_p, __CPROVER_object_whole(m_bfs_indices_), __CPROVER_object_whole(visited_))
 """ + binv("__CPROVER_ensures") + r"""
-/* only grows; a node marked 1 stays marked 1, an unmarked node other than the appended one stays unmarked */
-__CPROVER_ensures(nstack >= __CPROVER_old(nstack) && (__CPROVER_old(visited_[G]) != 0 ==> visited_[G] == __CPROVER_old(visited_[G]))
-    && (__CPROVER_old(visited_[BR]) != 0 ==> visited_[BR] == __CPROVER_old(visited_[BR])) && BG.w_g >= __CPROVER_old(BG.w_g) && BG.w_r >= __CPROVER_old(BG.w_r))
-""",
+/* the record only grows */
+__CPROVER_ensures(%s)
+""" % (GROW % dict(old="__CPROVER_old", lev="lev_end")),
     loops={0: r"""
 __CPROVER_assigns(rcv_idx, skip)
 __CPROVER_loop_invariant(rcv_idx <= m_receivers_count_[donor_idx] && !skip)
@@ -361,8 +380,6 @@ _BFS = [Group(
 BFS_NODE_READ = V(r"auto (\w+) = m_bfs_indices\((\w+)\);",
                   r"size_t \1 = m_bfs_indices(\2); FSL_PRE(\1 < gsize && (\1 == BR ==> (BG.w_r >= 1 && BG.pos_r <= \2))); /* IH: NODES, FIRSTR at the position read */ "
                   r"FSL_PRE(m_donors_count_[\1] <= DON_W); /* donor table well-formed (C06): row length <= width */")
-GROW = ("nstack >= %(old)s(nstack) && BG.w_g >= %(old)s(BG.w_g) && BG.w_r >= %(old)s(BG.w_r)")
-
 bfs_scan_node = Unit(
     name="bfs_scan_node", file=IMPL_H, anchor=BFS_ANCHOR,
     inner=r"for \(size_type i = levels\[level - 2\]; i < levels\[level - 1\]; \+\+i\)\s*\{",
@@ -377,11 +394,11 @@ __CPROVER_requires(i < lev_end)
 __CPROVER_assigns(BG, *nstack_p, __CPROVER_object_whole(m_bfs_indices_), __CPROVER_object_whole(visited_))
 """ + binv("__CPROVER_ensures") + r"""
 __CPROVER_ensures(%s)
-""" % (GROW % dict(old="__CPROVER_old")),
+""" % (GROW % dict(old="__CPROVER_old", lev="lev_end")),
     loops={0: r"""
 __CPROVER_assigns(k, BG, *nstack_p, __CPROVER_object_whole(m_bfs_indices_), __CPROVER_object_whole(visited_))
 __CPROVER_loop_invariant(node_idx < gsize && m_donors_count_[node_idx] <= DON_W && k <= m_donors_count_[node_idx] && %s)
-""" % (GROW % dict(old="__CPROVER_loop_entry")) + binv("__CPROVER_loop_invariant") + r"""
+""" % (GROW % dict(old="__CPROVER_loop_entry", lev="lev_end")) + binv("__CPROVER_loop_invariant") + r"""
 __CPROVER_decreases(m_donors_count_[node_idx] - k)
 """},
 )
@@ -448,12 +465,12 @@ __CPROVER_assigns(BG, *nstack_p, *level_p, __CPROVER_object_whole(m_bfs_indices_
 __CPROVER_ensures(*level_p == __CPROVER_old(*level_p) + 1)
 """ + lvinv("__CPROVER_ensures", "*level_p") + binv_at("__CPROVER_ensures", "levels_[*level_p - 1]") + r"""
 __CPROVER_ensures(%s)
-""" % (GROW % dict(old="__CPROVER_old")),
+""" % (GROW % dict(old="__CPROVER_old", lev="__CPROVER_old(levels_[*level_p - 1])")),
     loops={
         0: r"""
 __CPROVER_assigns(i, BG, *nstack_p, __CPROVER_object_whole(m_bfs_indices_), __CPROVER_object_whole(visited_))
 __CPROVER_loop_invariant(levels_[level - 2] <= i && i <= lev_end && level == level_in_ && lev_end == levels_[level - 1] && %s)
-""" % (GROW % dict(old="__CPROVER_loop_entry")) + binv("__CPROVER_loop_invariant") + r"""
+""" % (GROW % dict(old="__CPROVER_loop_entry", lev="lev_end")) + binv("__CPROVER_loop_invariant") + r"""
 __CPROVER_decreases(lev_end - i)
 """,
         1: r"""
@@ -486,5 +503,118 @@ _BFS.append(Group(
            "breadth-first invariant is preserved with the new boundary; the level table stays non-decreasing and ends at the number of written "
            "nodes; a node first written in this round lies in the level this round fills"))
 
+
+# ---------------------------------------------------------------------------------------------------- the whole function
+ZERO_MODEL = r"""
+/* std::vector<uint8_t> visited(n, 0): element-wise zero (container model); the proof observes the ghost cells */
+void fsl_zero_u8(uint8_t *c, size_t n)
+__CPROVER_requires(n <= ((size_t) 1 << 40))
+__CPROVER_assigns(__CPROVER_object_whole(c))
+__CPROVER_ensures(c[G] == 0 && c[BR] == 0 && c[BR0] == 0)
+;
+"""
+ROOT_CNT = "(BG.w_g == ((G < i && BR0 == G) ? 1 : 0) && BG.w_r == ((BR < i && RECV(BR, 0) == BR) ? 1 : 0) && BG.lvl_g == 0 && (BG.w_g >= 1 ==> BG.bound_g == 0))"
+B3 = ("((BG.w_g >= 1 && BR != G) ==> (BG.w_r >= 1 && BG.lvl_g < *level_p - 1 && BG.pos_r < levels_[BG.lvl_g] "
+      "&& levels_[BG.lvl_g] <= BG.pos_g && BG.pos_g < levels_[BG.lvl_g + 1]))")
+
+bfs_whole = Unit(
+    name="bfs_whole", file=IMPL_H, anchor=BFS_ANCHOR,
+    sig="void bfs_whole(%s, size_t *m_bfs_levels_n)" % LV_PARAMS,
+    pre=ZERO_MODEL, defs=BFS_DEFS + "#define level (*level_p)\n#define lev_end ((size_t) 0) /* own receivers are written before the first boundary */\n",
+    rules=[
+        RB(r"while \(nstack < size\(\)\)", "{ bfs_level(%s); }" % LV_ARGS),
+        R(r"std::vector<std::uint8_t> visited\(m_grid\.size\(\), std::uint8_t\(0\)\);", "fsl_zero_u8(visited_, gsize);", 1),
+        R(r"std::vector<size_type> levels\(m_grid\.size\(\) \+ 1, 0\);", "/* levels: size + 1 entries (container model: the buffer levels_) */", 1),
+        R(r"size_type nstack = 0;", "nstack = 0;", 1),
+        R(r"size_type level = 0;", "level = 0; FSL_GHOST(BG.lvl_g = 0;)", 1),
+        V(r"levels\[level\+\+\] = ([^;]*);", r"{ FSL_PRE(level < lcap); levels[level++] = \1; }"),
+        R(r"m_bfs_levels = xt::adapt\(levels, \{ level \}\);", "*m_bfs_levels_n = level; /* adapt(levels, {level}): the first `level` entries */", 1),
+        BFS_WRITE_HOOK,
+    ] + BFS_VOCAB,
+    contract=BFS_FRESH + LV_FRESH + r"""
+__CPROVER_requires(__CPROVER_is_fresh(m_bfs_levels_n, sizeof(size_t)))
+/* receiver table well-formed (C04/C05): a node is its own receiver only as its single receiver */
+__CPROVER_requires(BR0 == G ==> RCNT(G) == 1)
+__CPROVER_requires(BG.w_g == 0 && BG.w_r == 0)
+__CPROVER_assigns(BG, *nstack_p, *level_p, *m_bfs_levels_n, __CPROVER_object_whole(m_bfs_indices_), __CPROVER_object_whole(visited_), __CPROVER_object_whole(levels_))
+/* (b4) the level table: starts at 0, non-decreasing, ends at the number of nodes */
+__CPROVER_ensures(*m_bfs_levels_n == *level_p && nstack == gsize)
+""" + lvinv("__CPROVER_ensures", "*level_p") + r"""
+/* (b1) nodes only, G at most once; (b3) every receiver of G lies in a strictly earlier level than G */
+__CPROVER_ensures(%(NODES)s && %(ONCE)s && %(POSG)s && %(POSR)s)
+__CPROVER_ensures(%(B3)s)
+""" % dict(NODES=BINV["NODES"], ONCE=BINV["ONCE"], POSG=BINV["POSG"], POSR=BINV["POSR"], B3=B3),
+    loops={
+        0: r"""
+__CPROVER_assigns(i, BG, *nstack_p, __CPROVER_object_whole(m_bfs_indices_))
+__CPROVER_loop_invariant(i <= gsize && nstack <= i && level == 0 && visited_[G] == 0 && visited_[BR] == 0 && visited_[BR0] == 0 && %s)
+""" % ROOT_CNT + binv_at("__CPROVER_loop_invariant", "((size_t) 0)") + r"""
+__CPROVER_decreases(gsize - i)
+""",
+        # the while loop: partial correctness (progress of a round is the reachability argument)
+        1: r"""
+__CPROVER_assigns(BG, *nstack_p, *level_p, __CPROVER_object_whole(m_bfs_indices_), __CPROVER_object_whole(visited_), __CPROVER_object_whole(levels_))
+""" + lvinv("__CPROVER_loop_invariant", "level") + binv_at("__CPROVER_loop_invariant", "levels_[level - 1]"),
+    },
+)
+
+H_BFS = r"""
+void h_bfs_whole(void)
+{
+    const size_t *rec, *rcnt, *don, *dcnt; size_t *bfs, *nst, *lev, *lp, *ln; uint8_t *vis;
+    struct bghost z; BG = z;
+    G = nondet_size_t(); GJ = nondet_size_t(); BR = nondet_size_t(); BR0 = nondet_size_t(); QP = nondet_size_t(); QL = nondet_size_t();
+    bfs_whole(nondet_size_t(), rec, rcnt, don, dcnt, bfs, nst, vis, lev, nondet_size_t(), lp, ln);
+    __CPROVER_assert(0, "canary: postcondition point reachable");
+}
+"""
+_BFS.append(Group(
+    name="orders_u.bfs.whole", units=[bfs_try_donor, bfs_scan_node, bfs_level, bfs_whole], harness=H_BFS, entry="h_bfs_whole", enforce="bfs_whole",
+    replace=["bfs_level", "fsl_zero_u8"], loop_contracts=True, defines=BFS_DEFINES, backend="cadical", timeout=900, min_obligations=30,
+    clause="compute_bfs_indices_bottomup as a whole (any number of nodes; partial correctness of the while loop): the order holds nodes, each node "
+           "at most once; every receiver of a node lies in a strictly earlier level; the level table starts at 0, is non-decreasing and ends at "
+           "the number of nodes"))
+
 GROUPS = {"C06": _BU + _BFS}
-PROPS = {}
+PROPS = {
+    "C06": dict(
+        level="other",
+        explanation="Order clauses of C06, unbounded local lemmas (any number of nodes, arbitrary ghost node / receiver slot / position / stack slot).  "
+                    "Depth-first bottom-up order: written values are nodes; a node's receiver is written (first) before the node; own-receiver nodes are "
+                    "written exactly once; a node is written if its receiver is, and at most once if its receiver is written at most once.  "
+                    "Breadth-first order: nodes only, each at most once; when a node is appended all its receivers lie before the start of the "
+                    "level being filled, i.e. in strictly earlier levels; the level table starts at 0, is non-decreasing and ends at the number "
+                    "of nodes.  The whole clauses (permutation, non-empty levels) are compositions of these lemmas that are not mechanised; "
+                    "they are checked as such only by the bounded groups of spec/orders.py (<= 4 nodes).",
+        unmechanised=[
+            "depth-first: induction along receiver chains (acyclic by C01/C04: every chain ends at an own-receiver node) turns `own receivers exactly once` + "
+            "`written if the receiver is` + `at most once if the receiver is at most once` into `every node exactly once`, i.e. a permutation "
+            "and nstack == size (the authors' assert); with `receiver first` this is the bottom-up clause",
+            "breadth-first: `each node at most once` + completeness (every node is eventually appended: each round appends the nodes all of whose "
+            "receivers are closed, which exist while nodes remain because the receiver relation is acyclic) gives the permutation and the "
+            "non-emptiness of the levels; termination of the while loop is the same progress argument",
+        ],
+        undecided=[
+            "compute_dfs_indices_topdown (Kahn-style sweep on multiple-direction graphs): `a node is pushed when visited_count == donors_count` "
+            "means `all donors written` only through a cardinality argument over the donor row (count of distinct written donors), which a "
+            "single ghost index cannot carry -- no unbounded lemma here, bounded group of orders.py only",
+            "termination / progress of the inner while loops (partial correctness is proved): counting / reachability",
+        ],
+        assumptions=[
+            "ASSUMED capacity instances: `index < size` at every write of the order table (dfs and bfs) and `level < size + 1` at every write of "
+            "the level table -- that the sweeps never write more than `size` entries / `size + 1` boundaries is the counting half (no duplicate + "
+            "progress), decided only by the bounded groups; the authors' assert(nstack == size()) is not kept in the unbounded groups",
+            "donor table contract, instantiate-on-read (C06 donors_sound / DISTINCT / complete, proved for the single-direction router in "
+            "spec/router.py): entries of row r are nodes whose receiver is r, distinct, row length <= width; the row of a node's receiver holds the node",
+            "receiver table well-formedness, instantiate-on-read (C04/C05 postconditions): 1 <= receivers_count <= width, entries are nodes, a node "
+            "is its own receiver only as its single receiver",
+            "IH instances (DESIGN 3.9): stack-element invariants SELEM / UNIQ at the popped slot of the depth-first work stack; order-table "
+            "invariants NODES / FIRSTR at the position read by the breadth-first scan -- each is proved (base + step) for an arbitrary ghost slot / position",
+            "container models: std::stack = array + length with a symbolic model capacity (the real container grows); "
+            "std::vector visited(n, 0) = zeroed buffer, std::vector levels(n + 1) = buffer; xt::adapt(levels, {level}) = the first `level` entries",
+            "ghost record maintained at every assignment to the order table and every push (hook on the statement shapes `order(e) = v;`, "
+            "`tmp.push(v);`): a body that writes the order in another shape detaches the proof (extraction break / failed obligation, never a silent pass)",
+            "single-direction graphs for the depth-first bottom-up order (the function reads receiver column 0 only)",
+        ],
+    ),
+}
